@@ -1,6 +1,6 @@
 """C14 — every derived stream property reflects the current state, never a stale one.
 Correspondence harness (real tmo.Stream / tmo.MultiStream against coq/C14/Model.v), generators, direct oracle."""
-import os
+
 import numpy as np
 from fractions import Fraction as F
 from vf import q, qlist, clist, cbool, cnat, frac, fr_json
@@ -25,10 +25,10 @@ ASSUMPTIONS = ['the property-package functions are deterministic functions of (p
                'the temperature found by the H setter inside mix_from(energy_balance=True) is an oracle value (any T)']
 TRUSTED = ['model coq/C14/Model.v is hand-written from thermosteam/_stream.py, _multi_stream.py, indexer.py, _phase.py; tie = correspondence check',
            'operations outside the modelled subset (MultiStream receivers of mix_from/copy_like, cross-package copies, proxy of a '
-           'MultiStream, phases= that drops the current phase of a Stream) are replaced by no-ops in the correspondence; the '
+           'phase view, phase/phases assignment on a MultiStream proxy that has no _streams yet, phases= that drops the current phase of a Stream) are replaced by no-ops in the correspondence; the '
            'direct oracle still executes them']
 
-SHARED = os.environ.get('VERIF_C14_SHARED', '1') != '0'
+SHARED = True   # the model is the repaired source (pending_fixes/C14_1): proxy shares the key cell with the memo dict
 
 PH = {'g': 0, 'l': 1, 's': 2}
 PHS = 'gls'
@@ -178,7 +178,10 @@ def resolve(objs, op):
         return ['read', i, op[2]], lambda: getattr(s, op[2])
     if k == 'setT': return [k, i, op[2]], lambda: setattr(s, 'T', op[2])
     if k == 'setP': return [k, i, op[2]], lambda: setattr(s, 'P', op[2])
-    if k == 'setphase': return [k, i, op[2]], lambda: setattr(s, 'phase', op[2])
+    no_streams = is_multi(s) and not hasattr(s, '_streams')     # proxy() of a MultiStream before any reset_cache
+    if k == 'setphase':
+        if no_streams: return ['nop'], lambda: setattr(s, 'phase', op[2])
+        return [k, i, op[2]], lambda: setattr(s, 'phase', op[2])
     if k == 'setflow':
         if is_multi(s):
             return [k, i, op[2], op[3], op[4]], lambda: s.imol.__setitem__((op[2], IDS[op[3]]), op[4])
@@ -187,7 +190,7 @@ def resolve(objs, op):
     if k == 'fmol': return [k, i, op[2]], lambda: setattr(s, 'F_mol', s.F_mol * op[2])
     if k == 'empty': return [k, i], lambda: s.empty()
     if k == 'proxy':
-        if is_multi(s) or isinstance(s, tmo.MultiStream) or not hasattr(s, 'equations'): return ['nop'], lambda: s.proxy()
+        if not hasattr(s, 'equations'): return ['nop'], lambda: s.proxy()      # phase views have no `equations`
         return [k, i], lambda: s.proxy()
     if k == 'flow_proxy': return [k, i], lambda: s.flow_proxy()
     if k == 'copy': return [k, i], lambda: s.copy()
@@ -213,12 +216,12 @@ def resolve(objs, op):
         if is_multi(s) or any(is_multi(objs[x]) or not same_chem(s, objs[x]) for x in js): return ['nop'], act
         live = [x for x in js if not objs[x].isempty()]
         if len(live) == 0: return ['empty', i], act
-        if len(live) == 1: return (['copy_like', i, live[0]] if energy else ['copy_flow', i, live[0]]), act
+        if len(live) == 1: return (['copy_like', i, live[0]] if energy else ['mix1', i, live[0]]), act
         return ['mix', i, live, energy, None], act       # T filled in after the call
     if k == 'view': return [k, i, op[2]], lambda: s[op[2]]
     if k == 'setphases':
         ps = sorted(set(op[2]), key=lambda c: PH[c])
-        if not is_multi(s) and len(ps) > 1 and s.phase not in ps: return ['nop'], lambda: setattr(s, 'phases', op[2])
+        if no_streams or (not is_multi(s) and len(ps) > 1 and s.phase not in ps): return ['nop'], lambda: setattr(s, 'phases', op[2])
         return [k, i, ''.join(ps)], lambda: setattr(s, 'phases', op[2])
     if k == 'reset_cache': return [k, i], lambda: s.reset_cache()
     if k == 'reset_thermo':
@@ -314,6 +317,7 @@ def cop(o):
     if k == 'unlink': return f'(OUnlink {cnat(o[1])})'
     if k == 'copy_like': return f'(OCopyLike {cnat(o[1])} {cnat(o[2])})'
     if k == 'copy_flow': return f'(OCopyFlow {cnat(o[1])} {cnat(o[2])})'
+    if k == 'mix1': return f'(OMix1 {cnat(o[1])} {cnat(o[2])})'
     if k == 'copy_tc': return f'(OCopyTC {cnat(o[1])} {cnat(o[2])})'
     if k == 'copy_phase': return f'(OCopyPhase {cnat(o[1])} {cnat(o[2])})'
     if k == 'mix': return f'(OMix {cnat(o[1])} {clist(o[2], cnat)} {cbool(o[3])} {q(F(o[4]))})'
